@@ -95,9 +95,9 @@ def run(ctx):
     tail = after[:ret_idx]
     grid_param = "timegrid"
     self_reset = any(isinstance(s, ast.Expr) and isinstance(s.value, ast.Call) and au.call_name(s.value) == "self.set_timegrid"
-                     and s.value.args and au.U(s.value.args[0]) == grid_param for s in tail)
+                     and au.U(au.arg_or_kw(s.value, 0, "timegrid")) == grid_param for s in tail)
     asset_reset = any(isinstance(s, ast.For) and "assets" in au.U(s.iter) and any(
-        isinstance(x, ast.Call) and au.method_name(x) == "set_timegrid" and x.args and au.U(x.args[0]) == grid_param for x in au.walk_local(s)) for s in tail)
+        isinstance(x, ast.Call) and au.method_name(x) == "set_timegrid" and au.U(au.arg_or_kw(x, 0, "timegrid")) == grid_param for x in au.walk_local(s)) for s in tail)
     early = [s for s in au.walk_stmts(main.body) if isinstance(s, ast.Return)]
     ctx.ob("C14.c", fn, "portfolio grid restored", self_reset and not early,
            "after the interval loop the portfolio must be given the full grid again (self.set_timegrid(%s) before the return, no return "
@@ -132,9 +132,12 @@ def run(ctx):
         lv = au.target_names(main.target)[0] if au.target_names(main.target) else None
         # the interval grid is built from (seq[i], seq[i+1]) - directly or through locals
         pair_ok = False
-        for x in [x for s in main.body for x in au.walk_own(s) if isinstance(x, ast.Call) and au.method_name(x) == "Timegrid" and len(x.args) >= 2]:
+        for x in [x for s in main.body for x in au.walk_own(s) if isinstance(x, ast.Call) and au.method_name(x) == "Timegrid"]:
             st_x = ctx.p.enclosing_stmt(x)
-            ends = [ctx.resolve(fn, a, st_x) for a in x.args[:2]]
+            ends = [au.arg_or_kw(x, 0, "start"), au.arg_or_kw(x, 1, "end")]
+            if None in ends:
+                continue
+            ends = [ctx.resolve(fn, a, st_x) for a in ends]
             if all(isinstance(e, ast.Subscript) and au.base_name(e.value) == seq for e in ends):
                 pair_ok = [au.U(e.slice).replace(" ", "") for e in ends] == [lv, "%s+1" % lv]
         ctx.ob("C14.f", fn, "consecutive pairs of the boundary sequence", rng_ok and pair_ok,
